@@ -11,15 +11,18 @@ package substitution
 // results are sub-slices of the value: they never reach past its end.
 
 //@ func (*CutFilter).Apply
+//@   option check-nil yes
 //@   requires f.count >= 0
 //@   pure
 //@   ensures sameblock(result, src) && off(src) <= off(result) && off(result) + len(result) <= off(src) + len(src)
 
 //@ func (*TrimToFilter).Apply
+//@   option check-nil yes
 //@   pure
 //@   ensures sameblock(result, src) && off(src) <= off(result) && off(result) + len(result) <= off(src) + len(src)
 
 //@ func (*RegexFilter).Apply
+//@   option check-nil yes
 //@   requires r.re != nil
 //@   requires allrange(r.groups, 0, uf_nsub(r.re) + 1)
 //@   loop 1 invariant rangeindex < len(indexes)
